@@ -974,7 +974,7 @@ func (r *Raft) verifyLeader(v *verifyFuture) {
 
 	// Set the quorum size, hot-path for single node
 	v.quorumSize = r.quorumSize()
-	if v.quorumSize == 1 {
+	if v.quorumSize == 1 && v.votes == 1 {
 		v.respond(nil)
 		return
 	}
